@@ -131,6 +131,7 @@ class FakeBlob:
         self.maxconc = 0
         self.injected = 0
         # completion-order control: request k waits for its gate; gates are released by release_gates()
+        self.latency = None        # seconds every download takes (requests of one fan-out are then in flight together and complete almost at once)
         self.gated = gate_order is not None
         self.gates = {}
         self.completion = []
@@ -155,6 +156,9 @@ class FakeBlob:
                         gate.wait(30)
                     kind = outer.faults.get(k)
                     b = outer.data[offset:offset + length]
+                    if outer.latency:
+                        import time
+                        time.sleep(outer.latency)
                     if kind is not None:
                         with outer.lock:
                             outer.injected += 1
@@ -423,3 +427,59 @@ def install_native_contracts(enforce=True):
     if hasattr(CU, 'zfpy'):
         CU.zfpy = proxy
     return proxy
+
+
+# ---------------------------------------------------------------------------------------------
+# yield injection: every statement boundary of the named repository modules, when executed by a pool thread, is a point where the
+# interpreter may hand over to another thread.  sys.monitoring LINE events make a seeded share of them actual hand-overs (sleep(0)),
+# so that interleavings a free run produces once in a thousand calls are produced in almost every call.  Nothing is forced that the
+# interpreter could not do by itself.
+
+class YieldInjector:
+    def __init__(self, suffixes=('seismic_zfp/loader.py',), p=0.3, seed=0):
+        import random
+        self.suffixes, self.p = tuple(suffixes), p
+        self.rng = random.Random(seed)
+        self.yields = 0
+        self.lines = 0
+        self.tool = None
+
+    def __enter__(self):
+        import sys
+        import time
+        mon = getattr(sys, 'monitoring', None)
+        if mon is None:
+            return self
+        for tid in (3, 4, 2):
+            try:
+                mon.use_tool_id(tid, 'vz-yield-injection')
+                self.tool = tid
+                break
+            except ValueError:
+                continue
+        if self.tool is None:
+            return self
+        main = threading.main_thread()
+
+        def on_line(code, line):
+            if not code.co_filename.endswith(self.suffixes):
+                return mon.DISABLE
+            if threading.current_thread() is main:
+                return None
+            self.lines += 1
+            if self.rng.random() < self.p:
+                self.yields += 1
+                time.sleep(0)
+            return None
+        mon.register_callback(self.tool, mon.events.LINE, on_line)
+        mon.set_events(self.tool, mon.events.LINE)
+        return self
+
+    def __exit__(self, *a):
+        import sys
+        mon = getattr(sys, 'monitoring', None)
+        if mon is not None and self.tool is not None:
+            mon.set_events(self.tool, 0)
+            mon.register_callback(self.tool, mon.events.LINE, None)
+            mon.free_tool_id(self.tool)
+            self.tool = None
